@@ -29,7 +29,7 @@ static const char * description(int code) {
 }
 
 static const scpi_command_t cmds[] = { {"SYSTem:ERRor[:NEXT]?", SCPI_SystemErrorNextQ, 1}, SCPI_CMD_LIST_END };
-static tc_t T;
+static tc_t T, T2;       /* T2: queue of 2 entries for the histories (overflow after two pushes) */
 static unsigned long long n_cases = 0, n_nontrivial = 0, n_cut = 0, n_quoted = 0;
 
 /* returns NULL if fine, else the reason */
@@ -117,6 +117,7 @@ int main(int argc, char ** argv) {
     mc_init(argc, argv);
     tc_heap_len = 700;
     tc_init(&T, cmds, 32, 4);
+    tc_init(&T2, cmds, 32, 2);
     /* (a) every code without text */
     for (code = -32768; code <= 32767; code++) {
         if (!MC_CASE()) continue;
@@ -170,34 +171,34 @@ int main(int argc, char ** argv) {
      *     text of ITS error (or, in the static-heap build, no text when the heap was full) */
     {
         static const int plen[5] = {3, 7, 11, 15, 19};
-        int K = mc_thorough ? 7 : 6, k, st[8], hs, i2;
+        int K = mc_thorough ? 8 : 7, k, st[8], hs, i2;
         for (hs = 0; hs < 3; hs++) for (k = 2; k <= K; k++) {
             for (i2 = 0; i2 < k; i2++) st[i2] = 0;
             for (;;) {
                 if (MC_CASE()) {
                     char texts[8][24]; int tl[8], codes[8], head = 0, tail = 0, n;
                     mc_case_tag = "history"; mc_case_i[0] = hs; mc_case_i[1] = k; for (i2 = 0; i2 < k && i2 < 4; i2++) mc_case_i[2 + i2] = st[i2];
-                    tc_reinit(&T, cmds);
+                    tc_reinit(&T2, cmds);
 #if !USE_MEMORY_ALLOCATION_FREE
-                    SCPI_InitHeap(&T.ctx, T.heap, (size_t) (hs == 0 ? 24 : hs == 1 ? 32 : 40));
+                    SCPI_InitHeap(&T2.ctx, T2.heap, (size_t) (hs == 0 ? 24 : hs == 1 ? 32 : 40));
 #endif
                     for (n = 0; n < k; n++) {
                         if (st[n] < 5) {
                             int l = plen[st[n]], j;
-                            if (tail - head >= 4) {             /* queue (capacity 4) full: the newest entry becomes -350 without text */
+                            if (tail - head >= 2) {             /* queue (capacity 2) full: the newest entry becomes -350 without text */
                                 char tmp[24];
                                 for (j = 0; j < l; j++) tmp[j] = 'z'; tmp[l] = 0;
-                                SCPI_ErrorPushEx(&T.ctx, -222, tmp, (size_t) l);
+                                SCPI_ErrorPushEx(&T2.ctx, -222, tmp, (size_t) l);
                                 codes[(tail - 1) & 7] = -350; tl[(tail - 1) & 7] = -1;
                                 continue;
                             }
                             for (j = 0; j < l; j++) texts[tail & 7][j] = (char) ('A' + (tail % 20)); texts[tail & 7][1] = '"'; texts[tail & 7][l] = 0; tl[tail & 7] = l; codes[tail & 7] = -222;
-                            SCPI_ErrorPushEx(&T.ctx, -222, texts[tail & 7], (size_t) l);
+                            SCPI_ErrorPushEx(&T2.ctx, -222, texts[tail & 7], (size_t) l);
                             tail++;
                         } else {
                             const char * why;
                             tr_reset();
-                            SCPI_Input(&T.ctx, "SYST:ERR?\n", 10);
+                            SCPI_Input(&T2.ctx, "SYST:ERR?\n", 10);
                             n_cases++;
                             if (head == tail) why = check_response(0, "", 0, 0);
                             else {
@@ -233,6 +234,6 @@ int main(int argc, char ** argv) {
     mc_stat("nontrivial", n_nontrivial);
     mc_stat("responses_cut_at_255", n_cut);
     mc_stat("responses_with_doubled_quote", n_quoted);
-    tc_free(&T);
+    tc_free(&T); tc_free(&T2);
     return mc_finish();
 }
